@@ -27,7 +27,7 @@ entry removed.
 
 Offsets (sequence / alternate-set / ligature-set / ligature / coverage offsets) may ALIAS one
 record: every visit is charged.  uint16 arithmetic: `componentCount-1` is `(n + 65535) % 65536`
-(a count of 0 is now rejected first; before that repair it became 65535: `read41Old`); the dispatcher key `10*meta.LookupType+format` is taken modulo 65536.
+(a count of 0 is now rejected first; before that repair it became 65535: `read41Old`); the dispatcher key `10*meta.LookupType+format` is taken modulo 65536 (and since the dispatcher repair lookup types and formats above 9 are rejected, so the wrap is unreachable: `readSubtableOld` is the code before).
 
 Values are those of the value-level models of C08 (`SfntV.Otl.Gsub`, Model/OtlGsub.lean), to
 which Proofs/TotalGsubSub.lean bridges.  Cost: `steps` = parser reads + loop iterations,
@@ -284,12 +284,9 @@ def withSub {α : Type} (f : α → Sub) (x : Outcome (α × Cost)) : Outcome (S
   | .err e => .err e
   | .panic s => .panic s
 
-/-- `readGsubSubtable` (gsub.go:30-50): format word, `gsubReaders[10*meta.LookupType+format]`
-(uint16 arithmetic; a map read cannot panic).  A key of another group's reader gives
-`err "foreign"` (not modelled here). -/
-def readSubtable (tp : Nat) (b : Bytes) (pos : Nat) : Outcome (Sub × Cost) := do
-  let format ← readU16 "gsub.go:36#ReadUint16" b pos
-  let key := (10 * tp + format) % 65536
+/-- the readers of this group behind a dispatcher key; a key of another group's reader gives
+`err "foreign"` (not modelled here), a key that is not in `gsubReaders` gives `err "invalid"` -/
+def dispatchKey (key : Nat) (b : Bytes) (pos : Nat) : Outcome (Sub × Cost) :=
   if key = 11 then withSub (fun r => .s11 r.1 r.2) (read11 b pos)
   else if key = 12 then withSub (fun r => .s12 r.1 r.2) (read12 b pos)
   else if key = 21 then withSub (fun r => .seq 2 r.1 r.2) (read21 b pos)
@@ -298,5 +295,24 @@ def readSubtable (tp : Nat) (b : Bytes) (pos : Nat) : Outcome (Sub × Cost) := d
   else if key = 81 then withSub (fun r => .s81 r) (read81 b pos)
   else if foreignKeys.contains key then .err "foreign"
   else .err "invalid"
+
+/-- `readGsubSubtable` (gsub.go:30-50) as it is in the working tree: format word,
+`reader, ok := gsubReaders[10*meta.LookupType+format]` (uint16 arithmetic; a map read cannot
+panic), then `if !ok || meta.LookupType > 9 || format > 9 { return invalid }` (gsub.go:42): the
+values whose key would collide with a valid one are rejected.  `tp` is the uint16 lookup type.
+`err "foreign"` now only stands for the VALID keys of the other groups' readers (lookup types
+5, 6, 7 with their formats). -/
+def readSubtable (tp : Nat) (b : Bytes) (pos : Nat) : Outcome (Sub × Cost) := do
+  let format ← readU16 "gsub.go:36#ReadUint16" b pos
+  let key := (10 * tp + format) % 65536
+  if tp > 9 ∨ format > 9 then .err "invalid"
+  else dispatchKey key b pos
+
+/-- `readGsubSubtable` BEFORE the repair of the dispatcher (no guard on type and format): the
+uint16 key wrapped and collided, e.g. lookup type 1 with format word 11 was read by
+`readGsub2_1`.  Kept only to state what the old code did. -/
+def readSubtableOld (tp : Nat) (b : Bytes) (pos : Nat) : Outcome (Sub × Cost) := do
+  let format ← readU16 "gsub.go:36#ReadUint16" b pos
+  dispatchKey ((10 * tp + format) % 65536) b pos
 
 end SfntV.Total.GsubSub
